@@ -62,7 +62,7 @@ fn canon(line: &str, cids: &HashMap<usize, String>) -> String {
 /// `expect`: the session and transaction id of the request just sent, when the protocol owes it an answer: the quiet period
 /// only counts once a message with that id (or the end of that session) has been seen -- under load the answer may take
 /// longer than any quiet period (bounded by 20 s: after that the missing answer is what is reported)
-async fn settle(conns: &mut HashMap<usize, Conn>, cids: &HashMap<usize, String>, out: &mut Vec<String>, expect: Option<(usize, u64)>) {
+async fn settle(conns: &mut HashMap<usize, Conn>, cids: &HashMap<usize, String>, out: &mut Vec<String>, expect: Option<(usize, u64)>) -> bool {
     // read until every session has been silent for QUIET; give up after MAX
     let quiet = Duration::from_millis(12);
     let start = tokio::time::Instant::now();
@@ -121,6 +121,7 @@ async fn settle(conns: &mut HashMap<usize, Conn>, cids: &HashMap<usize, String>,
             break;
         }
     }
+    answered
 }
 
 async fn run_case(sock: PathBuf, ops: Vec<String>) -> Vec<String> {
@@ -135,12 +136,14 @@ async fn run_case(sock: PathBuf, ops: Vec<String>) -> Vec<String> {
     config.unix_disabled = false;
     config.use_persistence = false;
     config.extended_monitoring = false;
-    config.channel_buffer_size = 10_000;
+    // `buf=<n>` in the cfg line: the capacity of every channel of the server (default here: large)
+    config.channel_buffer_size = ops.first().and_then(|l| l.split(' ').find_map(|x| x.strip_prefix("buf=")).and_then(|x| x.parse().ok())).unwrap_or(10_000);
     config.auth_token_key = if auth { Some(SECRET.to_owned()) } else { None };
     config.leader = false;
     config.follower = false;
     let (done_tx, done_rx) = tokio::sync::oneshot::channel::<Vec<String>>();
-    let res = tosub::build_root("harness")
+    let mut done_rx = done_rx;
+    let run = tosub::build_root("harness")
         .start(async move |s: tosub::SubsystemHandle| {
             let _api = spawn_worterbuch(&s, config).await.map_err(|e| miette::miette!("{e}"))?;
             // wait for the socket to appear
@@ -311,6 +314,31 @@ async fn run_case(sock: PathBuf, ops: Vec<String>) -> Vec<String> {
                         // let the server finish the session ends before the next step
                         tokio::time::sleep(Duration::from_millis(30)).await;
                     }
+                    "fill" => {
+                        // fill <s> <prefix> <n>: session s pipelines n sets <prefix>/k<i> = i and counts the acks
+                        let n: usize = t[3].parse().expect("n");
+                        let mut acks = 0usize;
+                        if let Some(c) = conns.get_mut(&sn) {
+                            let mut burst = String::new();
+                            for i in 0..n {
+                                burst.push_str(&json!({"set": {"transactionId": i + 1, "key": format!("{}/k{i}", t[2]), "value": i}}).to_string());
+                                burst.push('\n');
+                            }
+                            c.wr.write_all(burst.as_bytes()).await.ok();
+                            c.wr.flush().await.ok();
+                            let mut got = 0usize;
+                            while got < n {
+                                match tokio::time::timeout(Duration::from_secs(20), c.rd.next_line()).await {
+                                    Ok(Ok(Some(l))) => {
+                                        got += 1;
+                                        if serde_json::from_str::<Value>(&l).ok().map(|v| v.get("ack").is_some()).unwrap_or(false) { acks += 1; }
+                                    }
+                                    _ => break,
+                                }
+                            }
+                        }
+                        out.push(format!("{sn}:fill={acks}"));
+                    }
                     "storm" => {
                         // storm <subs> <writers> <writes> <late> <k|p>: every connection is a task of its own on the multi-threaded
                         // runtime. <subs> subscribers (live only) are acknowledged first; then <writers> writers, released at a
@@ -476,8 +504,15 @@ async fn run_case(sock: PathBuf, ops: Vec<String>) -> Vec<String> {
                     })
                 } else { None };
                 let t0 = tokio::time::Instant::now();
-                settle(&mut conns, &cids, &mut out, expect).await;
+                let answered = settle(&mut conns, &cids, &mut out, expect).await;
                 if std::env::var("WBH_SLOW").is_ok() && t0.elapsed() > Duration::from_secs(5) { eprintln!("SLOW {:?}: {}", t0.elapsed(), if t[0] == "send" { unhex(t[2]) } else { line.clone() }); }
+                if !answered {
+                    // the answer the protocol owes did not come within 20 s: the server no longer serves; the case ends here
+                    // (every further step would wait as long, and a core task that hangs never lets the server shut down)
+                    out.push(format!("{sn}:noanswer"));
+                    lines.push(out.join(" "));
+                    break;
+                }
                 lines.push(out.join(" "));
             }
             let _ = conns.values().map(|c| c.cid.len()).sum::<usize>();
@@ -485,9 +520,14 @@ async fn run_case(sock: PathBuf, ops: Vec<String>) -> Vec<String> {
             s.request_global_shutdown();
             Ok::<(), miette::Error>(())
         })
-        .await;
-    let _ = res;
-    done_rx.await.unwrap_or_else(|_| vec!["HARNESS-FAILURE".to_owned()])
+        ;
+    tokio::pin!(run);
+    // the case is over when its lines are there; a server whose core task hangs never finishes its shutdown: it gets 5 s
+    let lines = tokio::select! {
+        _ = &mut run => done_rx.try_recv().ok(),
+        l = &mut done_rx => { let _ = tokio::time::timeout(Duration::from_secs(5), &mut run).await; l.ok() }
+    };
+    lines.unwrap_or_else(|| vec!["HARNESS-FAILURE".to_owned()])
 }
 
 pub fn main(cases: &str, out: &str) {
